@@ -77,6 +77,9 @@ CONFIGS = {
     "asan256x": dict(cmake=["-DFPX_METHD=BASIC;BASIC;BASIC", "-DPP_METHD=BASIC;OATEP", "-DEP_METHD=BASIC;LWNAF;COMBS;INTER;SSWUM",
                             "-DEB_METHD=BASIC;LWNAF;COMBS;INTER", "-DFB_METHD=BASIC;QUICK;QUICK;QUICK;QUICK;QUICK;BASIC;SLIDE;QUICK"],
                      cflags=SAN_GATE),   # alternative dispatch of the extension/pairing/curve layers
+    # other build-time defaults of the hash-to-curve map (EP_MAP): the named entry points must not depend on it
+    "asan256mb": dict(cmake=["-DEP_METHD=PROJC;LWNAF;COMBS;INTER;BASIC"], cflags=SAN_GATE),
+    "asan256ms": dict(cmake=["-DEP_METHD=PROJC;LWNAF;COMBS;INTER;SWIFT"], cflags=SAN_GATE),
     "rsa-pkcs1": dict(cmake=["-DCP_RSAPD=PKCS1"], cflags=SAN_GATE),
     "rsa-basic": dict(cmake=["-DCP_RSAPD=BASIC"], cflags=SAN_GATE),
     "plain256": dict(cmake=[], cflags=PLAIN, san="none"),
